@@ -640,7 +640,9 @@ pub fn oracle_c01b(sc: &Scenario, r: &RunResult) -> Option<Violation> {
                     s.owes_invalidated = Some((e.seq, "a change notification for its own inputs".to_string()));
                 }
             }
-            "send" if e.rest.contains("msg:Invalidated{") => {
+            // `send-closed`: the announcement was made but the engine has already stopped
+            // listening (shutdown in progress) - the actor did what it owed
+            "send" | "send-closed" if e.rest.contains("msg:Invalidated{") => {
                 let names_self = e.rest.split("msg:Invalidated{").nth(1).map(|b| b.split("target_name:\"").nth(1).and_then(|x| x.split('"').next()).unwrap_or("") == t.1).unwrap_or(false);
                 let kind = e.rest.split("msg:Invalidated{kind:").nth(1).and_then(|x| x.split(',').next()).unwrap_or("");
                 if names_self && kind == own_kind_s {
